@@ -204,7 +204,22 @@ def helpers_ieee(run):
             if pre is not None:
                 ctx.assume(pre(*args))
             ctx.cover(f"utils.{fname}/ieee-precondition-satisfiable")
-            kind, res = run_function(it, ctx, MOD, fname, args)
+            inner = []
+
+            def hook(ex_, f_, a_, k_):
+                if getattr(f_, "qualname", "") == "log1p_exp" and ex_.qual != "log1p_exp":
+                    inner.append(a_[0])
+            it.call_hook = hook if fname == "log_sum_exp" else None
+            try:
+                kind, res = run_function(it, ctx, MOD, fname, args)
+            finally:
+                it.call_hook = None
+            for x in inner:
+                # log(e^a + e^b) = max + log(1 + e^{-|a-b|}): the correction added to the larger operand lies in (0, log 2], so the rounding error of the
+                # final addition is relative to the RESULT; with a positive argument the smaller operand is subtracted and re-added and the error scales
+                # with the gap between the operands instead
+                ctx.prove("utils.log_sum_exp/correction-term-argument-nonpositive", to_real(x) <= 0 if is_z3(x) or not isinstance(x, float) else z3.BoolVal(x <= 0),
+                          text="log_sum_exp calls log1p_exp with (smaller - larger) <= 0 only: result = larger operand + a term in (0, log 2]")
             oid = f"utils.{fname}/ieee-no-exception"
             if kind == "raise":
                 wit = ctx.model()
@@ -276,7 +291,14 @@ def operators(run):
                     return
                 before = R(ctx, a)
                 b_log_before = b.attrs["log_val"] if isinstance(b, Obj) else None
+                if isinstance(a, Obj):
+                    ex.getattr(a, "val")  # the plain value has been read before the accumulation (comparisons / mixed arithmetic do this)
                 res = ex.inplace(ast.Add, a, b)
+                if isinstance(res, Obj) and res.cls.name == "LogRepFloat":
+                    plain, rep = ex.getattr(res, "val"), R(ctx, res)
+                    if rep is not None and not isinstance(rep, str) and not (isinstance(plain, float) and (math.isinf(plain) or math.isnan(plain))):
+                        ctx.prove("utils.LogRepFloat/val-follows-log_val-after-+=", to_real(plain) == rep,
+                                  text="representation invariant: after `x += y` (y a LogRepFloat or a plain number) x.val == exp(x.log_val), also when x.val was read before")
                 ra = before
                 same = res is a
                 ctx.run.ob("utils.LogRepFloat/+=-returns-the-accumulator", core.DISCHARGED if same else core.FAILED, "pyvc",
